@@ -149,9 +149,46 @@ type tamperConn struct {
 	truncate bool // drop the byte instead of flipping a bit
 	mask     byte
 	done     bool
+	recTrunc int    // >= 0: replace the first armed record by its first recTrunc body bytes, header length adjusted
+	pending  []byte // record-truncation mode: bytes not yet handed to the reader
 }
 
 func (t *tamperConn) Read(b []byte) (int, error) {
+	t.mu.Lock()
+	if t.armed && t.recTrunc >= 0 {
+		defer t.mu.Unlock()
+		for !t.done {
+			if len(t.pending) >= 5 {
+				n := int(t.pending[3])<<8 | int(t.pending[4])
+				if len(t.pending) >= 5+n {
+					l := t.recTrunc
+					if l > n {
+						l = n
+					}
+					out := append([]byte{t.pending[0], t.pending[1], t.pending[2], byte(l >> 8), byte(l)}, t.pending[5:5+l]...)
+					t.pending = append(out, t.pending[5+n:]...)
+					t.done = true
+					break
+				}
+			}
+			tmp := make([]byte, 4096)
+			m, err := t.Conn.Read(tmp)
+			t.pending = append(t.pending, tmp[:m]...)
+			if err != nil {
+				t.done = true
+				if len(t.pending) == 0 {
+					return 0, err
+				}
+			}
+		}
+		if len(t.pending) > 0 {
+			m := copy(b, t.pending)
+			t.pending = t.pending[m:]
+			return m, nil
+		}
+		return t.Conn.Read(b)
+	}
+	t.mu.Unlock()
 	n, err := t.Conn.Read(b)
 	t.mu.Lock()
 	defer t.mu.Unlock()
@@ -238,22 +275,170 @@ func run(c *vh.Ctx) {
 		}
 		// tampering: one mutated byte in what the client receives
 		for t := 0; t < ntamper; t++ {
-			if err := tamperOnce(c, cb, certs, key, in, t); err != nil {
+			if err := tamperOnce(c, cb, certs, key, in, t, -1); err != nil {
 				c.Fail("c25-tamper-setup/"+key, "could not set up the tamper experiment", in, err.Error(), "handshake completes")
 				break
 			}
 		}
+		if cb.version == tls.VersionTLS13 {
+			// record-level truncation (header length adjusted); TLS <= 1.2 is swept on forged connections below
+			ls := []int{0, 1, 15, 16, 17, 18, 40}
+			if c.Tier != "quick" {
+				for l := 0; l < 64; l++ {
+					ls = append(ls, l)
+				}
+			}
+			for _, l := range ls {
+				if err := tamperOnce(c, cb, certs, key, in, 0, l); err != nil {
+					c.Fail("c25-tamper-setup/"+key, "could not set up the tamper experiment", in, err.Error(), "handshake completes")
+					break
+				}
+			}
+			keyUpdateHistory(c, cb, certs, key, in)
+			emptyRecords13(c, cb, certs, key, in)
+		}
 	}
+	// record-level experiments on forged connections, every suite of the table incl. the weak CBC suites
+	// (EnableWeakCiphers is process-global: last, after every real handshake of this run)
+	tls.EnableWeakCiphers()
+	forgedSweeps(c)
+	emptyRecordStreams(c)
 }
 
-func tamperOnce(c *vh.Ctx, cb combo, certs testCerts, key string, in map[string]any, t int) error {
+// keyUpdateHistory: several KeyUpdates in each direction on one connection, with and without
+// update_requested, interleaved with data both ways. Peer: the uTLS server (it has the KeyUpdate hook).
+func keyUpdateHistory(c *vh.Ctx, cb combo, certs testCerts, key string, in map[string]any) {
+	p, err := handshakePairU(cb.version, cb.suite, certs, false)
+	if err != nil {
+		c.Fail("c25-handshake-u/"+key, "handshake with the uTLS server did not complete", in, err.Error(), "handshake completes")
+		return
+	}
+	defer p.close()
+	hsBytes := len(p.crec.take())
+	_, out0 := tls.VerifRecordState(p.client.Conn)
+	var ops []opObs
+	fail := func(what string, err error) {
+		c.Fail("c25-keyupdate/"+key+"/"+what, "the byte stream is cut or altered across a history of key updates ("+what+")", in, err.Error(), "byte stream intact")
+	}
+	c2s := func(k int) error {
+		sizes := randSizes(c.Rng, k)
+		for i := range sizes {
+			sizes[i] = sizes[i]%3000 + 1
+		}
+		if err := transfer(p.client.Write, p.server, p.server.SetReadDeadline, sizes, c.Rng); err != nil {
+			return err
+		}
+		for _, n := range sizes {
+			ops = append(ops, opObs{size: n})
+		}
+		return nil
+	}
+	s2c := func(k int) error {
+		sizes := randSizes(c.Rng, k)
+		for i := range sizes {
+			sizes[i] = sizes[i]%3000 + 1
+		}
+		return transfer(p.server.Write, p.client, p.client.SetReadDeadline, sizes, c.Rng)
+	}
+	steps := 8
+	if c.Tier != "quick" {
+		steps = 24
+	}
+	nPeer, nOwn := 0, 0
+	for i := 0; i < steps; i++ {
+		req := c.Rng.Intn(2) == 0
+		if i%2 == 0 { // KeyUpdate from the peer; the client answers while reading if it was requested
+			if err := p.userver.VerifSendKeyUpdate(req); err != nil {
+				fail("peer-send", err)
+				return
+			}
+			nPeer++
+			if err := s2c(1 + c.Rng.Intn(2)); err != nil {
+				fail(fmt.Sprintf("s2c-after-peer-keyupdate-%d", nPeer), err)
+				return
+			}
+			if req {
+				ops = append(ops, opObs{ku: true, req: false})
+			}
+		} else { // KeyUpdate from the client
+			if err := p.client.VerifSendKeyUpdate(req); err != nil {
+				fail("client-send", err)
+				return
+			}
+			nOwn++
+			ops = append(ops, opObs{ku: true, req: req})
+		}
+		if err := c2s(1 + c.Rng.Intn(2)); err != nil {
+			fail(fmt.Sprintf("c2s-after-%d-peer-%d-own-keyupdates", nPeer, nOwn), err)
+			return
+		}
+		if err := s2c(1); err != nil {
+			fail(fmt.Sprintf("s2c-after-%d-peer-%d-own-keyupdates", nPeer, nOwn), err)
+			return
+		}
+		c.Count("key_updates")
+	}
+	recs := splitRecords(p.crec.take())
+	c.Case("stream", fmt.Sprintf("(CStream %d %d %d %d %d %d %s %s)", cb.version, cb.kind, cb.macSize, cb.suite, hsBytes, out0.Seq,
+		opsTerm(ops), recsTerm(recs, 0)), "stream-keyupdates/"+key, true,
+		map[string]any{"suite": in["suite"], "peer_key_updates": nPeer, "client_key_updates": nOwn, "records": len(recs)})
+}
+
+// emptyRecords13: the TLS 1.3 peer interleaves zero-length application data records with data.
+func emptyRecords13(c *vh.Ctx, cb combo, certs testCerts, key string, in map[string]any) {
+	p, err := handshakePairU(cb.version, cb.suite, certs, false)
+	if err != nil {
+		c.Fail("c25-handshake-u/"+key, "handshake with the uTLS server did not complete", in, err.Error(), "handshake completes")
+		return
+	}
+	defer p.close()
+	pat := emptyPattern(c.Rng)
+	var want []byte
+	errc := make(chan error, 1)
+	datas := make([][]byte, len(pat))
+	for i, n := range pat {
+		if n > 0 {
+			datas[i] = make([]byte, n)
+			c.Rng.Read(datas[i])
+			want = append(want, datas[i]...)
+		}
+	}
+	go func() {
+		for i, n := range pat {
+			var err error
+			if n == 0 {
+				err = p.userver.VerifWriteEmptyRecord(23)
+			} else {
+				_, err = p.server.Write(datas[i])
+			}
+			if err != nil {
+				errc <- err
+				return
+			}
+		}
+		errc <- nil
+	}()
+	var got []byte
+	var rerr error
+	panicked, pval := vh.Recover(func() { got, rerr = readExactly(p.client, len(want), c.Rng, p.client.SetReadDeadline) })
+	werr := <-errc
+	if panicked || werr != nil || rerr != nil || !bytes.Equal(got, want) {
+		c.Fail("c25-empty-records/"+key, "data interleaved with zero-length application data records (never more than 32 in a row) does not arrive intact",
+			map[string]any{"suite": in["suite"], "version": in["version"], "pattern": pat},
+			fmt.Sprint(len(got), " of ", len(want), " bytes, read err=", rerr, " write err=", werr, " panic=", pval), "all bytes")
+	}
+	c.Case("empty", fmt.Sprintf("(CEmpty %d %d %d %s %d %s)", cb.version, cb.kind, cb.macSize, patternTerm(pat), len(got), vh.Bool(rerr != nil || panicked)),
+		"empty/"+key, true, nil)
+}
+
+func tamperOnce(c *vh.Ctx, cb combo, certs testCerts, key string, in map[string]any, t int, recTrunc int) error {
 	a, b, err := tcpPair()
 	if err != nil {
 		return err
 	}
 	defer a.Close()
 	defer b.Close()
-	tc := &tamperConn{Conn: a}
+	tc := &tamperConn{Conn: a, recTrunc: -1}
 	p, err := handshakeOver(tc, b, cb.version, cb.suite, certs)
 	if err != nil {
 		return err
@@ -272,28 +457,37 @@ func tamperOnce(c *vh.Ctx, cb combo, certs testCerts, key string, in map[string]
 	}
 	tc.mu.Lock()
 	tc.at, tc.truncate, tc.mask = at, trunc, 1<<uint(c.Rng.Intn(8))
-	tc.armed, tc.pos, tc.done = true, 0, false
+	tc.armed, tc.pos, tc.done, tc.recTrunc = true, 0, false, recTrunc
 	tc.mu.Unlock()
 	go func() { p.server.Write(data); p.server.Close() }()
 	var got []byte
 	var rerr error
 	buf := make([]byte, 4096)
-	for {
-		p.client.SetReadDeadline(time.Now().Add(5 * time.Second))
-		m, err := p.client.Read(buf)
-		got = append(got, buf[:m]...)
-		if err != nil {
-			rerr = err
-			break
+	panicked, pval := vh.Recover(func() {
+		for {
+			p.client.SetReadDeadline(time.Now().Add(5 * time.Second))
+			m, err := p.client.Read(buf)
+			got = append(got, buf[:m]...)
+			if err != nil {
+				rerr = err
+				break
+			}
 		}
-	}
+	})
 	tin := map[string]any{"suite": in["suite"], "version": in["version"], "offset": at, "truncate": trunc, "plaintext_len": n}
-	k := fmt.Sprintf("c25-tamper/%s/%s", key, map[bool]string{false: "flip", true: "truncate"}[trunc])
-	if !bytes.HasPrefix(data, got) {
+	kind := map[bool]string{false: "flip", true: "truncate"}[trunc]
+	if recTrunc >= 0 {
+		kind = "record-truncate"
+		tin["truncated_to"] = recTrunc
+	}
+	k := fmt.Sprintf("c25-tamper/%s/%s", key, kind)
+	if panicked {
+		c.Fail("c25-panic/"+key+"/"+kind, "Read panicked on a damaged record instead of returning an error", tin, fmt.Sprint(pval), "an error")
+	} else if !bytes.HasPrefix(data, got) {
 		c.Fail(k, "the receiver returned plaintext that was never sent after one ciphertext byte was changed", tin, len(got), "only a prefix of the sent bytes")
 	} else if len(got) == len(data) || rerr == nil || errors.Is(rerr, io.EOF) {
 		c.Fail(k, "a changed ciphertext byte went undetected (all data delivered or clean EOF)", tin, fmt.Sprint(len(got), " bytes, err=", rerr), "an error")
 	}
-	c.Count("tamper_" + map[bool]string{false: "flip", true: "truncate"}[trunc])
+	c.Count("tamper_" + kind)
 	return nil
 }
